@@ -1,5 +1,5 @@
 (* C17 - verdicts do not depend on the order of SAN entries or of extensions.  Statements only (proofs: Kernels/Order.v). *)
-From ZL Require Import Base.Bytes Kernels.Order Kernels.Names Kernels.NamesFacts Kernels.GeneralNames Kernels.GeneralNamesFacts.
+From ZL Require Import Base.Bytes Kernels.Order Kernels.Names Kernels.NamesFacts Kernels.GeneralNames Kernels.GeneralNamesFacts Kernels.CnSan.
 From Coq Require Import Sorting.Permutation ZArith List.
 Open Scope Z_scope.
 
@@ -47,6 +47,22 @@ Theorem c17_raw_lints_perm : forall v san' ian', Permutation (rv_san v) san' -> 
   all_raw_lints (mkRview (rv_san_ext v) san' (rv_ian_ext v) ian') = all_raw_lints v.
 Proof. exact raw_lints_perm. Qed.
 
+(* the four lints that relate the subject common name(s) to the SAN entries (Kernels/CnSan.v): the dNSNames (each with
+   the public-suffix parser's verdict) and the addresses in any order - same status, and for the exact-match lint the
+   same details text *)
+Theorem c17_cn_san_lints_perm : forall fold_eq v v', reordered v v' ->
+  l_cn_exact v = l_cn_exact v' /\ l_cn_from_san fold_eq v = l_cn_from_san fold_eq v' /\
+  l_redacted v = l_redacted v' /\ l_ev_wildcard v = l_ev_wildcard v'.
+Proof.
+  intros f v v' R. repeat split;
+    [apply l_cn_exact_perm | apply l_cn_from_san_perm | apply l_redacted_perm | apply l_ev_wildcard_perm]; exact R.
+Qed.
+
+(* what the exact-match lint decides: pass iff every common name is, octet for octet, a dNSName or an address text *)
+Theorem c17_cn_exact_spec : forall v, cv_cns v <> [] -> cv_is_ca v = false ->
+  (fst (l_cn_exact v) = 3 <-> forall cn, In cn (cv_cns v) -> In cn (cv_dns v) \/ In cn (cv_ips v)).
+Proof. exact l_cn_exact_spec. Qed.
+
 Print Assumptions c17_first_offender_perm.
 Print Assumptions c17_label_lints_perm.
 Print Assumptions c17_na_first_refuted.
@@ -63,3 +79,5 @@ Example c17_names_example :
 Proof. split; vm_compute; reflexivity. Qed.
 Print Assumptions c17_gn_lints_perm.
 Print Assumptions c17_raw_lints_perm.
+Print Assumptions c17_cn_san_lints_perm.
+Print Assumptions c17_cn_exact_spec.
